@@ -474,4 +474,4 @@ def s_case():
 
 
 def parts(tier):
-    return [hyp_part("histories", s_case, interpret, tier, quick=1200, thorough=10000, quick_shards=4, thorough_shards=16)]
+    return [hyp_part("histories", s_case, interpret, tier, quick=1200, thorough=4000, quick_shards=4, thorough_shards=16)]
